@@ -23,9 +23,33 @@ theorem cInt_fits (v : Int) : FitsInt (cInt v) := by
   unfold FitsInt cInt wrapInt intBits
   omega
 
-/-- the six conversions of `scan6` are the six fields as written, each narrowed to `int` -/
-theorem scan6_eq {buf : Bytes} {l : List Int} (h : scan6 buf = some l) :
-    ∃ w, lexFields 6 buf = some w ∧ l = w.map cInt := by
+theorem clampLong_of_fits {v : Int} (h : FitsInt v) : clampLong v = v := by
+  unfold FitsInt at h
+  unfold clampLong longMax
+  have h1 : ¬ v > 9223372036854775807 := by omega
+  have h2 : ¬ v < -9223372036854775807 - 1 := by omega
+  simp only [h1, h2, ↓reduceIte]
+
+theorem narrow_of_fits (isLong : Bool) {v : Int} (h : FitsInt v) : narrow isLong v = v := by
+  unfold narrow
+  cases isLong
+  · simp only [Bool.false_eq_true, ↓reduceIte]; exact cInt_of_fits h
+  · simp only [↓reduceIte]; exact clampLong_of_fits h
+
+/-- a saturated value strictly inside the `long` range is the value as written -/
+theorem clampLong_inner {v : Int} (h1 : -9223372036854775808 < clampLong v) (h2 : clampLong v < 9223372036854775807) :
+    clampLong v = v := by
+  unfold clampLong longMax at h1 h2 ⊢
+  split
+  · rename_i hgt; simp only [hgt, ↓reduceIte] at h2; omega
+  · rename_i hgt
+    split
+    · rename_i hlt; simp only [hgt, hlt, ↓reduceIte] at h1; omega
+    · rfl
+
+/-- the six conversions of `scan6` are the six fields as written, each narrowed to the C type -/
+theorem scan6_eq {isLong : Bool} {buf : Bytes} {l : List Int} (h : scan6 isLong buf = some l) :
+    ∃ w, lexFields 6 buf = some w ∧ l = w.map (narrow isLong) := by
   unfold scan6 at h
   cases hw : lexFields 6 buf with
   | none => rw [hw] at h; simp at h
@@ -93,16 +117,19 @@ theorem pasvAddr_some_inv {ipParse : Bytes → Option Nat} {force : Option Bytes
       subst h
       exact ⟨fun _ => ⟨rfl, by simpa using hany⟩, fun f hf => absurd hf (by simp)⟩
 
-/-- Inversion of Ftp::ParseIpPort: everything that must hold of an accepted string. -/
-theorem parseIpPort_ok_inv {ipParse : Bytes → Option Nat} {sanity : Bool} {force : Option Bytes} {addr0 : Nat}
-    {buf : Bytes} {ip port : Nat} (h : parseIpPort ipParse sanity force addr0 buf = .ok ip port) :
+/-- Inversion of Ftp::ParseIpPort (any source variant): everything that must hold of an accepted string. -/
+theorem parseIpPort_ok_inv {fl : PasvFlags} {ipParse : Bytes → Option Nat} {sanity : Bool} {force : Option Bytes} {addr0 : Nat}
+    {buf : Bytes} {ip port : Nat} (h : parseIpPortCore fl ipParse sanity force addr0 buf = .ok ip port) :
     ∃ h1 h2 h3 h4 p1 p2 : Int, lexFields 6 buf = some [h1, h2, h3, h4, p1, p2] ∧
-      0 ≤ cInt p1 ∧ cInt p1 ≤ 255 ∧ 0 ≤ cInt p2 ∧ cInt p2 ≤ 255 ∧
-      (port : Int) = cInt p1 * 256 + cInt p2 ∧ 1 ≤ port ∧ port ≤ 65535 ∧
+      0 ≤ narrow fl.long p1 ∧ narrow fl.long p1 ≤ 255 ∧ 0 ≤ narrow fl.long p2 ∧ narrow fl.long p2 ≤ 255 ∧
+      (port : Int) = narrow fl.long p1 * 256 + narrow fl.long p2 ∧ 1 ≤ port ∧ port ≤ 65535 ∧
       (sanity = true → 1024 ≤ port) ∧
-      (force = none → ip = assignIp ipParse addr0 (fmtQuad (cInt h1) (cInt h2) (cInt h3) (cInt h4)) ∧ isAny ip = false) ∧
-      (∀ f, force = some f → ip = assignIp ipParse addr0 f) := by
-  unfold parseIpPort at h
+      (force = none → ip = assignIp ipParse addr0 (fmtQuad (narrow fl.long h1) (narrow fl.long h2) (narrow fl.long h3) (narrow fl.long h4)) ∧
+        isAny ip = false) ∧
+      (∀ f, force = some f → ip = assignIp ipParse addr0 f) ∧
+      (fl.hostChecked = true → (0 ≤ narrow fl.long h1 ∧ narrow fl.long h1 ≤ 255) ∧ (0 ≤ narrow fl.long h2 ∧ narrow fl.long h2 ≤ 255) ∧
+        (0 ≤ narrow fl.long h3 ∧ narrow fl.long h3 ≤ 255) ∧ (0 ≤ narrow fl.long h4 ∧ narrow fl.long h4 ≤ 255)) := by
+  unfold parseIpPortCore at h
   split at h
   · rename_i a1 a2 a3 a4 b1 b2 hs
     obtain ⟨w, hw, hl⟩ := scan6_eq hs
@@ -118,15 +145,21 @@ theorem parseIpPort_ok_inv {ipParse : Bytes → Option Nat} {sanity : Bool} {for
       · rename_i hc
         simp only [not_or, Int.not_lt, pasvOctetMax] at hc
         obtain ⟨c1, c2, c3, c4⟩ := hc
-        have c3' : cInt p1 ≤ 255 := by omega
-        have c4' : cInt p2 ≤ 255 := by omega
+        have c3' : narrow fl.long p1 ≤ 255 := by omega
+        have c4' : narrow fl.long p2 ≤ 255 := by omega
         split at h
         · exact absurd h (by simp)
-        · rename_i a ha
-          obtain ⟨hip, r⟩ := pasvPort_ok_inv c1 c3' c2 c4' h
-          subst hip
-          obtain ⟨q1, q2⟩ := pasvAddr_some_inv ha
-          exact ⟨c1, c3', c2, c4', r.1, r.2.1, r.2.2.1, r.2.2.2, q1, q2⟩
+        · rename_i hh
+          split at h
+          · exact absurd h (by simp)
+          · rename_i a ha
+            obtain ⟨hip, r⟩ := pasvPort_ok_inv c1 c3' c2 c4' h
+            subst hip
+            obtain ⟨q1, q2⟩ := pasvAddr_some_inv ha
+            refine ⟨c1, c3', c2, c4', r.1, r.2.1, r.2.2.1, r.2.2.2, q1, q2, ?_⟩
+            intro hck
+            simp only [hck, true_and, not_or, Int.not_lt] at hh
+            omega
   · exact absurd h (by simp)
 
 /-! ### EPRT -/
@@ -146,22 +179,23 @@ def eprtAsWritten (buf : Bytes) : Option (Int × Bytes × Option Int) :=
         | none => none
       else none
 
-/-- the `int port` Ftp::ParseProtoIpPort computes from the port field as written -/
-def eprtPortInt : Option Int → Int
-  | some v => cInt v
+/-- the `port` variable Ftp::ParseProtoIpPort computes from the port field as written -/
+def eprtPortC (isLong : Bool) : Option Int → Int
+  | some v => narrow isLong v
   | none => 0
 
-theorem strtolInt_fst (s : Bytes) : (strtolInt s).1 = eprtPortInt ((lexInt s).map (·.1)) := by
-  unfold strtolInt eprtPortInt
+theorem strtolC_fst (isLong : Bool) (s : Bytes) : (strtolC isLong s).1 = eprtPortC isLong ((lexInt s).map (·.1)) := by
+  unfold strtolC eprtPortC
   cases lexInt s with
   | none => rfl
   | some p => rfl
 
-theorem eprtPort_ok_inv {sanity : Bool} {proto : Int} {addr : Nat} {rest : Bytes} {ip port : Nat}
-    (h : eprtPort sanity proto addr rest = .ok ip port) :
-    addr = ip ∧ isAny ip = false ∧ ((proto = 2) ↔ isV4 ip = false) ∧ 0 ≤ (strtolInt rest).1 ∧
-      (strtolInt rest).2.head? = some 124 ∧ (sanity = true → 1024 ≤ (strtolInt rest).1) ∧
-      port = (strtolInt rest).1.toNat % 65536 := by
+theorem eprtPort_ok_inv {fl : EprtFlags} {sanity : Bool} {proto : Int} {addr : Nat} {rest : Bytes} {ip port : Nat}
+    (h : eprtPort fl sanity proto addr rest = .ok ip port) :
+    addr = ip ∧ isAny ip = false ∧ ((proto = 2) ↔ isV4 ip = false) ∧ fl.portMin ≤ (strtolC fl.long rest).1 ∧
+      (0 ≤ fl.portMax → (strtolC fl.long rest).1 ≤ fl.portMax) ∧
+      (strtolC fl.long rest).2.head? = some 124 ∧ (sanity = true → 1024 ≤ (strtolC fl.long rest).1) ∧
+      port = (strtolC fl.long rest).1.toNat % 65536 := by
   unfold eprtPort at h
   split at h
   · exact absurd h (by simp)
@@ -178,18 +212,21 @@ theorem eprtPort_ok_inv {sanity : Bool} {proto : Int} {addr : Nat} {rest : Bytes
           simp only [AddrResult.ok.injEq] at h
           obtain ⟨hip, hp⟩ := h
           subst hip
-          simp only [not_or, Int.not_lt, ne_eq, Decidable.not_not] at hport
-          refine ⟨rfl, by simpa using hany, ?_, hport.1, hport.2, ?_, hp.symm⟩
+          simp only [not_or, Int.not_lt, ne_eq, Decidable.not_not, not_and] at hport
+          refine ⟨rfl, by simpa using hany, ?_, hport.1, ?_, hport.2.2, ?_, hp.symm⟩
           · simp only [ne_eq, Decidable.not_not] at hfam
             rw [hfam]
+          · intro hm
+            have := hport.2.1 hm
+            omega
           · intro hs
             simp only [hs, true_and, Int.not_lt, eprtSanityMinPort] at hsan
             exact hsan
 
-theorem eprtAddr_ok_inv {ipParse : Bytes → Option Nat} {sanity : Bool} {addr0 : Nat} {delim : UInt8} {proto : Int}
-    {e : Bytes} {ip port : Nat} (h : eprtAddr ipParse sanity addr0 delim proto e = .ok ip port) :
+theorem eprtAddr_ok_inv {fl : EprtFlags} {ipParse : Bytes → Option Nat} {sanity : Bool} {addr0 : Nat} {delim : UInt8} {proto : Int}
+    {e : Bytes} {ip port : Nat} (h : eprtAddr fl ipParse sanity addr0 delim proto e = .ok ip port) :
     ∃ ipTxt rest, splitAtByte delim e.tail = some (ipTxt, rest) ∧ ipTxt.length < maxIpStrLen ∧
-      eprtPort sanity proto (assignIp ipParse addr0 ipTxt) rest = .ok ip port := by
+      eprtPort fl sanity proto (assignIp ipParse addr0 ipTxt) rest = .ok ip port := by
   unfold eprtAddr at h
   split at h
   · exact absurd h (by simp)
@@ -199,14 +236,15 @@ theorem eprtAddr_ok_inv {ipParse : Bytes → Option Nat} {sanity : Bool} {addr0 
     · rename_i hlen
       exact ⟨ipTxt, rest, hsp, by omega, h⟩
 
-/-- Inversion of Ftp::ParseProtoIpPort: everything that must hold of an accepted string. -/
-theorem parseProtoIpPort_ok_inv {ipParse : Bytes → Option Nat} {sanity : Bool} {addr0 : Nat} {buf : Bytes} {ip port : Nat}
-    (h : parseProtoIpPort ipParse sanity addr0 buf = .ok ip port) :
-    ∃ pw ipTxt po, eprtAsWritten buf = some (pw, ipTxt, po) ∧ (cInt pw = 1 ∨ cInt pw = 2) ∧
+/-- Inversion of Ftp::ParseProtoIpPort (any source variant): everything that must hold of an accepted string. -/
+theorem parseProtoIpPort_ok_inv {fl : EprtFlags} {ipParse : Bytes → Option Nat} {sanity : Bool} {addr0 : Nat} {buf : Bytes} {ip port : Nat}
+    (h : parseProtoIpPortCore fl ipParse sanity addr0 buf = .ok ip port) :
+    ∃ pw ipTxt po, eprtAsWritten buf = some (pw, ipTxt, po) ∧ (narrow fl.long pw = 1 ∨ narrow fl.long pw = 2) ∧
       ipTxt.length < maxIpStrLen ∧ ip = assignIp ipParse addr0 ipTxt ∧ isAny ip = false ∧
-      ((cInt pw = 2) ↔ isV4 ip = false) ∧ 0 ≤ eprtPortInt po ∧ (sanity = true → 1024 ≤ eprtPortInt po) ∧
-      port = (eprtPortInt po).toNat % 65536 := by
-  unfold parseProtoIpPort at h
+      ((narrow fl.long pw = 2) ↔ isV4 ip = false) ∧ fl.portMin ≤ eprtPortC fl.long po ∧
+      (0 ≤ fl.portMax → eprtPortC fl.long po ≤ fl.portMax) ∧ (sanity = true → 1024 ≤ eprtPortC fl.long po) ∧
+      port = (eprtPortC fl.long po).toNat % 65536 := by
+  unfold parseProtoIpPortCore at h
   split at h
   · exact absurd h (by simp)
   · rename_i delim s
@@ -216,25 +254,26 @@ theorem parseProtoIpPort_ok_inv {ipParse : Bytes → Option Nat} {sanity : Bool}
       simp only [not_or, not_and, ne_eq, Decidable.not_not] at hc
       obtain ⟨hproto, hdelim⟩ := hc
       obtain ⟨ipTxt, rest, hsp, hlen, hp⟩ := eprtAddr_ok_inv h
-      obtain ⟨q1, q2, q3, q4, _, q6, q7⟩ := eprtPort_ok_inv hp
+      obtain ⟨q1, q2, q3, q4, q5, _, q6, q7⟩ := eprtPort_ok_inv hp
       -- the protocol number was converted (otherwise strtol yields 0)
       cases hl : lexInt s with
       | none =>
-        simp only [strtolInt, hl] at hproto
+        simp only [strtolC, hl] at hproto
         exact absurd (hproto (by decide)) (by decide)
       | some pe =>
         obtain ⟨pw, e⟩ := pe
-        have hst : strtolInt s = (cInt pw, e) := by simp only [strtolInt, hl]
+        have hst : strtolC fl.long s = (narrow fl.long pw, e) := by simp only [strtolC, hl]
         rw [hst] at hdelim hsp hp hproto q3
         simp only at hdelim hsp hproto q3
-        refine ⟨pw, ipTxt, (lexInt rest).map (·.1), ?_, ?_, hlen, q1.symm, q2, q3, ?_, ?_, ?_⟩
+        refine ⟨pw, ipTxt, (lexInt rest).map (·.1), ?_, ?_, hlen, q1.symm, q2, q3, ?_, ?_, ?_, ?_⟩
         · simp only [eprtAsWritten, hl, hdelim, ↓reduceIte, hsp]
-        · by_cases h1 : cInt pw = 1
+        · by_cases h1 : narrow fl.long pw = 1
           · exact Or.inl h1
           · exact Or.inr (hproto h1)
-        · rw [← strtolInt_fst]; exact q4
-        · rw [← strtolInt_fst]; exact q6
-        · rw [← strtolInt_fst]; exact q7
+        · rw [← strtolC_fst]; exact q4
+        · rw [← strtolC_fst]; exact q5
+        · rw [← strtolC_fst]; exact q6
+        · rw [← strtolC_fst]; exact q7
 
 /-! ### digit strings: what the lexers make of strictly written numbers -/
 
